@@ -146,6 +146,23 @@ def gen(rng, tier):
             rot = mp.eye(3)
         elif r < 0.3:
             rot = rz(mpf(rng.uniform(-3, 3)))
+        elif r < 0.45:
+            # special rigid transforms whose rotation has exact zeros / a block structure: half turns about a horizontal axis
+            # ("upside-down": R(2,2) = -1 with the z row and column otherwise zero), half and quarter turns about the
+            # coordinate axes, and their products with a yaw — a shortcut keyed on zero entries must still be right
+            a = mpf(rng.uniform(-3, 3))
+            kind = rng.randrange(5)
+            if kind == 0:
+                c, sn = mp.cos(a), mp.sin(a)       # half turn about the axis (cos a, sin a, 0): 2 u u^T - I
+                rot = mp.matrix([[2 * c * c - 1, 2 * c * sn, 0], [2 * c * sn, 2 * sn * sn - 1, 0], [0, 0, -1]])
+            elif kind == 1:
+                rot = mp.matrix([[1, 0, 0], [0, -1, 0], [0, 0, -1]]) * rz(a)
+            elif kind == 2:
+                rot = rz(a) * mp.matrix([[-1, 0, 0], [0, 1, 0], [0, 0, -1]])
+            elif kind == 3:
+                rot = mp.matrix([[0, 0, 1], [0, 1, 0], [-1, 0, 0]]) if rng.random() < 0.5 else mp.matrix([[1, 0, 0], [0, 0, -1], [0, 1, 0]])
+            else:
+                rot = mp.matrix([[0, -1, 0], [1, 0, 0], [0, 0, 1]]) * mp.matrix([[1, 0, 0], [0, -1, 0], [0, 0, -1]])
         else:
             rot = rand_rotation(rng)
         tr = [rng.uniform(-1, 1) * 10 ** rng.uniform(-1, 3) for _ in range(3)] if rng.random() < 0.85 else [0.0, 0.0, 0.0]
